@@ -465,8 +465,8 @@ pub struct Scanner<'input, T> {
     /// For each flow collection we are in: whether it is a mapping, and the value
     /// [`Self::flow_mapping_started`] had when it was opened (restored when it is closed).
     flow_collections: Vec<(bool, bool)>,
-    /// Where the separation after the last block `:` (made of tabs only) or `?` (containing a
-    /// tab) ended.
+    /// Where the separation after the last block `:` (made of tabs only), `?` or `-` (containing
+    /// a tab) ended.
     ///
     /// A block collection cannot start there; a scalar can.
     no_block_collection_at: Option<usize>,
@@ -1599,6 +1599,11 @@ impl<'input, T: Input> Scanner<'input, T> {
                 self.mark,
                 "'-' must be followed by a valid YAML whitespace",
             ));
+        }
+        if found_tabs {
+            // No block collection can start after a separation that contains a tab: a key here
+            // (`-\tkey: value`) is rejected when its indicator is found. A scalar can follow.
+            self.no_block_collection_at = Some(self.mark.index);
         }
 
         self.skip_ws_to_eol(SkipTabs::No)?;
